@@ -664,6 +664,10 @@ def cli_argv(spec):
         a += ["-a"]
     if cli.get("g"):
         a += ["-g"]
+    if cli.get("d") is not None:
+        a += ["-d"] + ([cli["d"]] if cli["d"] else [])
+    if cli.get("f"):
+        a += ["-f"] + list(cli["f"])
     if spec.get("container", {}).get("fmt") == "pcap":
         a += ["-l"]
     return a
